@@ -108,16 +108,31 @@ func (c *stepCtx) stepRepeat(st map[string]interface{}) string {
 	d := defs[ty]
 	in := bytesOf(st["in"])
 	times := num(st, "times", 1000)
-	var maxA, total uint64
+	var maxA, total, maxH uint64
 	bad := 0
 	var m0, m1 runtime.MemStats
 	for i := 0; i < times; i++ {
 		dest := reflect.New(d.rt)
 		buf := append([]byte(nil), in...)
 		runtime.ReadMemStats(&m0)
+		h0 := hookAllocBytes.Load()
 		_, err, pan := callDecode(buf, dest.Interface())
+		if h := hookAllocBytes.Load() - h0; h > maxH {
+			maxH = h
+		}
 		runtime.ReadMemStats(&m1)
 		a := m1.TotalAlloc - m0.TotalAlloc
+		if a > uint64(2048*len(in)+(512<<10)) {
+			// process-wide counter: a figure out of proportion is measured once more, the smaller one counts
+			dest2 := reflect.New(d.rt)
+			buf2 := append([]byte(nil), in...)
+			runtime.ReadMemStats(&m0)
+			callDecode(buf2, dest2.Interface())
+			runtime.ReadMemStats(&m1)
+			if b := m1.TotalAlloc - m0.TotalAlloc; b < a {
+				a = b
+			}
+		}
 		if a > maxA {
 			maxA = a
 		}
@@ -126,6 +141,6 @@ func (c *stepCtx) stepRepeat(st map[string]interface{}) string {
 			bad++
 		}
 	}
-	return fmt.Sprintf(`"ev":"Repeat","ty":%q,"len":%d,"times":%d,"obs":{"out":"ok","bad":%d,"maxalloc":%d,"avgalloc":%d}`,
-		ty, len(in), times, bad, clamp(maxA), clamp(total/uint64(times)))
+	return fmt.Sprintf(`"ev":"Repeat","ty":%q,"len":%d,"times":%d,"obs":{"out":"ok","bad":%d,"maxalloc":%d,"avgalloc":%d,"maxhook":%d}`,
+		ty, len(in), times, bad, clamp(maxA), clamp(total/uint64(times)), clamp(maxH))
 }
